@@ -212,6 +212,10 @@ class Container:
         for op in self.operators[self._current_op_idx:]:
             op.transition(OperatorState.SUSPENDING)
 
+        # the container stops running: its memory no longer counts as
+        # consumed by the pool's active containers
+        self.set_current_memory_usage(0.0)
+
     def suspend_container_tick(self):
         self._suspend_ticks_left -= 1
         if self._suspend_ticks_left == 0:
